@@ -1,54 +1,10 @@
 //! C20 — gate-sequence expansion substitutes correctly and keeps needed definitions.
-//! Input `(prog (defs …) (body …) (sel …))`, output of the real `Program::expand_defgate_sequences`:
-//! `(ok (body instr…) (kept "name"…) (intact b))` or `(err <error>)` (wire format: `seqgate.rs`).
-use qvh::seqgate::*;
+//! Input `(prog (defs …) (body …) (sel …) (extras b))`; output: the shared observation of BOTH entry points
+//! (`Program::expand_defgate_sequences`, `Program::expand_defgate_sequences_with_source_map`), see
+//! `seqgate::observe`. Streams: `seqgate::run_streams`.
+use qvh::seqgate::run_streams;
 use qvh::*;
 
-fn emit(ctx: &mut Ctx, c: &Case) {
-    let Some(program) = c.build() else { return };
-    let mut table = PhTable::default();
-    let input = case_to_sexp(c, &mut table);
-    let sel = c.sel.clone();
-    ctx.case(input, move || {
-        let original = program.clone();
-        match program.expand_defgate_sequences(filter_of(&sel)) {
-            Ok(result) => {
-                let (kept, intact) = kept_to_sexp(&original, &result);
-                tagged("ok", vec![body_to_sexp(&result, &mut table), kept, intact])
-            }
-            Err(e) => tagged("err", vec![program_error_to_sexp(&e, &mut table)]),
-        }
-    });
-}
-
-fn run(ctx: &mut Ctx) {
-    // (1) corpus
-    for c in corpus() {
-        emit(ctx, &c);
-    }
-    // (2) exhaustive small alphabet: definitions of a, b with bodies of ≤ 1 (quick) / ≤ 2 (thorough) elements
-    let mut cases = vec![];
-    exhaustive(if ctx.quick() { 1 } else { 2 }, &mut |c| cases.push(c));
-    for c in &cases {
-        emit(ctx, c);
-    }
-    drop(cases);
-    // (3) seeded random, larger
-    let mut rng = ctx.rng(20);
-    let n = if ctx.quick() { 20_000 } else { 300_000 };
-    for i in 0..n {
-        let c = if i % 4 == 3 { random_case(&mut rng, 5, 10) } else { random_case(&mut rng, 4, 6) };
-        emit(ctx, &c);
-    }
-    // (4) definitions that bypass try_new (defensive error paths)
-    let mut rng = ctx.rng(21);
-    let n = if ctx.quick() { 3_000 } else { 40_000 };
-    for _ in 0..n {
-        let c = random_unchecked_case(&mut rng);
-        emit(ctx, &c);
-    }
-}
-
 fn main() {
-    main_with(run)
+    main_with(|ctx| run_streams(ctx, 20))
 }
